@@ -19,6 +19,7 @@ import (
 	"path/filepath"
 	"runtime"
 	"sort"
+	"time"
 
 	"github.com/gagliardetto/solana-go"
 	"github.com/ipfs/go-cid"
@@ -127,6 +128,7 @@ var (
 	c12eManifestRead = c12E("manifest.Manifest.ReadAll")
 	c12eManifestSize = c12E("manifest.Manifest.ContentSizeBytes")
 
+	c12eOasFromBytes = c12E("indexes.OffsetAndSize.FromBytes")
 	c12eLogRead     = c12E("linkedlog.LinkedLog.Read")
 	c12eLogReadSize = c12E("linkedlog.LinkedLog.ReadWithSize")
 
@@ -278,6 +280,8 @@ func c12MetaFields(b []byte, base int, tag string) ([]c12Field, int) {
 	return out, pos
 }
 
+func c12Big(f c12Field) c12Field { f.Big = true; return f }
+
 func c12LE(b []byte, off, n int) uint64 {
 	var full [8]byte
 	copy(full[:], b[off:off+n])
@@ -351,8 +355,6 @@ func (w *c12World) getter(ctx context.Context, c cid.Cid) (*ipldbindcode.DataFra
 }
 
 func c12Encode(node interface{}, kind int) []byte {
-	typ := []interface{ Type() interface{} }{}
-	_ = typ
 	var b []byte
 	var err error
 	switch kind {
@@ -658,8 +660,10 @@ func (w *c12World) carFamilies() []*c12Fam {
 // ---------------------------------------------------------------------------------------------
 
 func c12SizedFields(b []byte) (fields []c12Field, headerSize int, spans [][2]int) {
+	hl := c12Fixed(b, "header-len", 8, 4)
+	hl.Extra = []uint64{12} // Header.Load rejects lengths below 12
 	fields = append(fields,
-		c12Fixed(b, "header-len", 8, 4), c12Fixed(b, "value-size", 12, 8), c12Fixed(b, "num-buckets", 20, 4), c12Fixed(b, "version", 24, 1))
+		hl, c12Fixed(b, "value-size", 12, 8), c12Fixed(b, "num-buckets", 20, 4), c12Fixed(b, "version", 24, 1))
 	headerSize = 12 + int(binary.LittleEndian.Uint32(b[8:12]))
 	mf, _ := c12MetaFields(b[25:headerSize], 25, "")
 	fields = append(fields, mf...)
@@ -708,6 +712,24 @@ func c12SyntheticSig(i int) solana.Signature {
 		binary.LittleEndian.PutUint64(s[k:], uint64(i+1)*0x9E3779B97F4A7C15+uint64(k)*0xD1B54A32D192ED03)
 	}
 	return s
+}
+
+// c12SeedCacheDir: the shard process stores the sealed index files here so that its workers (which are restarted
+// after every fatal case) need not run the builders again. Purely a start-up optimisation.
+var c12SeedCacheDir string
+
+func c12Cached(name string, build func() []byte) []byte {
+	if c12SeedCacheDir != "" {
+		if b, err := os.ReadFile(filepath.Join(c12SeedCacheDir, name)); err == nil && len(b) > 0 {
+			return b
+		}
+	}
+	b := build()
+	if c12SeedCacheDir != "" {
+		os.MkdirAll(c12SeedCacheDir, 0o755)
+		os.WriteFile(filepath.Join(c12SeedCacheDir, name), b, 0o644)
+	}
+	return b
 }
 
 func c12ReadAndRemove(path string) []byte {
@@ -853,19 +875,23 @@ func (w *c12World) indexFamilies(dir string, thorough bool) []*c12Fam {
 	}
 	// pubkey-to-offset-and-size (the gsfa address index)
 	{
-		wr, err := indexes.NewWriter_PubkeyToOffsetAndSize(2, root, indexes.NetworkMainnet, tmp("p2o-tmp"))
-		c12Must(err)
 		var keys [][]byte
 		var pks []solana.PublicKey
 		for i := 0; i < 5; i++ {
 			pk := cargen.Account(i)
-			c12Must(wr.Put(pk, uint64(100*i), uint64(40+i)))
 			keys = append(keys, pk.Bytes())
 			pks = append(pks, pk)
 		}
-		c12Must(wr.Seal(ctx, tmp("p2o-dst")))
-		data := c12ReadAndRemove(wr.GetFilepath())
-		wr.Close()
+		data := c12Cached("pubkey-to-offset-and-size", func() []byte {
+			wr, err := indexes.NewWriter_PubkeyToOffsetAndSize(2, root, indexes.NetworkMainnet, tmp("p2o-tmp"))
+			c12Must(err)
+			for i, pk := range pks {
+				c12Must(wr.Put(pk, uint64(100*i), uint64(40+i)))
+			}
+			c12Must(wr.Seal(ctx, tmp("p2o-dst")))
+			defer wr.Close()
+			return c12ReadAndRemove(wr.GetFilepath())
+		})
 		absent := cargen.Account(4242)
 		add("pubkey-to-offset-and-size", data, c12RunSized(keys, absent.Bytes(), func(x *c12Exec, in []byte) {
 			var r *indexes.PubkeyToOffsetAndSize_Reader
@@ -883,21 +909,23 @@ func (w *c12World) indexFamilies(dir string, thorough bool) []*c12Fam {
 	// a large cid-to-offset-and-size index with two buckets (10 050 keys)
 	{
 		n := 10_050
-		wr, err := indexes.NewWriter_CidToOffsetAndSize(2, root, indexes.NetworkMainnet, tmp("big-tmp"), uint64(n))
-		c12Must(err)
 		var keys [][]byte
 		var cids []cid.Cid
-		for i := 0; i < n; i++ {
+		for i := 7; i < n; i += 1500 {
 			c := c12SyntheticCid(i)
-			c12Must(wr.Put(c, uint64(1000+37*i), uint64(100+i%50)))
-			if i%1500 == 7 {
-				keys = append(keys, c.Bytes())
-				cids = append(cids, c)
-			}
+			keys = append(keys, c.Bytes())
+			cids = append(cids, c)
 		}
-		c12Must(wr.Seal(ctx, tmp("big-dst")))
-		data := c12ReadAndRemove(wr.GetFilepath())
-		wr.Close()
+		data := c12Cached("cid-to-offset-and-size-10050", func() []byte {
+			wr, err := indexes.NewWriter_CidToOffsetAndSize(2, root, indexes.NetworkMainnet, tmp("big-tmp"), uint64(n))
+			c12Must(err)
+			for i := 0; i < n; i++ {
+				c12Must(wr.Put(c12SyntheticCid(i), uint64(1000+37*i), uint64(100+i%50)))
+			}
+			c12Must(wr.Seal(ctx, tmp("big-dst")))
+			defer wr.Close()
+			return c12ReadAndRemove(wr.GetFilepath())
+		})
 		fields, hs, spans := c12SizedFields(data)
 		stride := 499
 		if thorough {
@@ -1084,18 +1112,20 @@ func (w *c12World) bucketteerFamilies(dir string, thorough bool) []*c12Fam {
 	// current format
 	{
 		c12Must(os.MkdirAll(dir, 0o755))
-		p := filepath.Join(dir, "sig-exists.index")
-		wr, err := bucketteer.NewWriter(p)
-		c12Must(err)
-		for _, s := range sigs {
-			wr.Put(s)
-		}
-		var meta indexmeta.Meta
-		c12Must(meta.AddUint64(indexmeta.MetadataKey_Epoch, 2))
-		_, err = wr.Seal(meta)
-		c12Must(err)
-		c12Must(wr.Close())
-		data := c12ReadAndRemove(p)
+		data := c12Cached("sig-exists", func() []byte {
+			p := filepath.Join(dir, "sig-exists.index")
+			wr, err := bucketteer.NewWriter(p)
+			c12Must(err)
+			for _, s := range sigs {
+				wr.Put(s)
+			}
+			var meta indexmeta.Meta
+			c12Must(meta.AddUint64(indexmeta.MetadataKey_Epoch, 2))
+			_, err = wr.Seal(meta)
+			c12Must(err)
+			c12Must(wr.Close())
+			return c12ReadAndRemove(p)
+		})
 		hs := int(binary.LittleEndian.Uint32(data[0:4])) + 4
 		fields := []c12Field{c12Fixed(data, "header-size", 0, 4), c12Fixed(data, "version", 12, 8)}
 		mf, mlen := c12MetaFields(data[20:hs], 20, "")
@@ -1222,7 +1252,7 @@ func c12Uniq(a []int) []int {
 
 func c12BlocktimeFamilies(thorough bool) []*c12Fam {
 	hdrFields := func(b []byte) []c12Field {
-		return []c12Field{c12Fixed(b, "start", 14, 8), c12Fixed(b, "end", 22, 8), c12Fixed(b, "epoch", 30, 8), c12Fixed(b, "capacity", 38, 8)}
+		return []c12Field{c12Fixed(b, "start", 14, 8), c12Fixed(b, "end", 22, 8), c12Fixed(b, "epoch", 30, 8), c12Big(c12Fixed(b, "capacity", 38, 8))}
 	}
 	start := uint64(2 * 432000)
 	run := func(slots []uint64, n int) func(x *c12Exec, in []byte) {
@@ -1427,11 +1457,13 @@ func c12LogFamilies(dir string) []*c12Fam {
 				all := true
 				for _, r := range rs {
 					r := r
-					a := x.Guard(c12eLogRead, func() error { _, _, err := s.ll.Read(r.off); return err })
+					// LinkedLog.Read (unused by the repository itself) passes the payload length where ReadWithSize
+					// expects the total record size and therefore fails on valid records; it is exercised, not required.
+					x.Guard(c12eLogRead, func() error { _, _, err := s.ll.Read(r.off); return err })
 					b := x.Guard(c12eLogReadSize, func() error { _, _, err := s.ll.ReadWithSize(r.off, r.size); return err })
-					all = all && a && b
+					all = all && b
 				}
-				x.SeedOK(all, "Read / ReadWithSize of every record")
+				x.SeedOK(all, "ReadWithSize of every record")
 			}}
 	}
 	fams := []*c12Fam{mk("1-record", one, recs[:1]), mk("2-records", two, recs)}
@@ -1443,12 +1475,13 @@ func c12LogFamilies(dir string) []*c12Fam {
 			s := state(x)
 			setFile(s, two)
 			var oas indexes.OffsetAndSize
-			if err := oas.FromBytes(in); err != nil {
+			if !x.Guard(c12eOasFromBytes, func() error { return oas.FromBytes(in) }) {
 				return
 			}
 			a := x.Guard(c12eLogReadSize, func() error { _, _, err := s.ll.ReadWithSize(oas.Offset, oas.Size); return err })
 			b := x.Guard(c12eLogRead, func() error { _, _, err := s.ll.Read(oas.Offset); return err })
-			x.SeedOK(a && b, "ReadWithSize at the stored (offset, size)")
+			_ = b
+			x.SeedOK(a, "ReadWithSize at the stored (offset, size)")
 		}})
 	return fams
 }
@@ -1554,15 +1587,17 @@ func (w *c12World) txMetaFamilies() []*c12Fam {
 		m := metalatest.TransactionStatusMeta{Status: &metalatest.Result__Ok{}, Fee: 5000, PreBalances: []uint64{1_000_000, 5}, PostBalances: []uint64{995_000, 5}, InnerInstructions: &inner}
 		data, err := m.BincodeSerialize()
 		c12Must(err)
-		fields := []c12Field{c12Fixed(data, "status-variant", 0, 4), c12Fixed(data, "pre-balances-len", 12, 8), c12Fixed(data, "post-balances-len", 36, 8),
-			c12Fixed(data, "inner-instructions-option", 60, 1), c12Fixed(data, "inner-instructions-len", 61, 8), c12Fixed(data, "instructions-len", 70, 8)}
+		fields := []c12Field{c12Fixed(data, "status-variant", 0, 4), c12Big(c12Fixed(data, "pre-balances-len", 12, 8)), c12Big(c12Fixed(data, "post-balances-len", 36, 8)),
+			c12Fixed(data, "inner-instructions-option", 60, 1), c12Big(c12Fixed(data, "inner-instructions-len", 61, 8)), c12Big(c12Fixed(data, "instructions-len", 70, 8))}
 		fams = append(fams, &c12Fam{Name: fmt.Sprintf("tx-meta/bincode-latest/%dB", len(data)), Format: "tx-meta-bincode-latest", Seed: data, Fields: fields, Run: run(1)})
 		// an instruction error: Err(InstructionError(0, Custom(7)))
-		m2 := metalatest.TransactionStatusMeta{Status: &metalatest.Result__Err{Value: &metalatest.TransactionError__InstructionError{Field0: 0, Field1: &metalatest.InstructionError__Custom{Value: 7}}},
+		custom := metalatest.InstructionError__Custom(7)
+		m2 := metalatest.TransactionStatusMeta{Status: &metalatest.Result__Err{Value: &metalatest.TransactionError__InstructionError{Field0: 0, Field1: &custom}},
 			Fee: 5000, PreBalances: []uint64{1}, PostBalances: []uint64{1}}
 		if data2, err := m2.BincodeSerialize(); err == nil {
 			fams = append(fams, &c12Fam{Name: fmt.Sprintf("tx-meta/bincode-latest-err/%dB", len(data2)), Format: "tx-meta-bincode-latest", Seed: data2,
-				Fields: []c12Field{c12Fixed(data2, "status-variant", 0, 4), c12Fixed(data2, "error-variant", 4, 4)}, Run: run(1)})
+				Fields: []c12Field{c12Fixed(data2, "status-variant", 0, 4), c12Fixed(data2, "error-variant", 4, 4), c12Fixed(data2, "instruction-error-variant", 9, 4),
+					c12Big(c12Fixed(data2, "pre-balances-len", 25, 8)), c12Big(c12Fixed(data2, "post-balances-len", 41, 8)), c12Fixed(data2, "inner-instructions-option", 57, 1)}, Run: run(1)})
 		}
 	}
 	// bincode, oldest serde format
@@ -1570,7 +1605,7 @@ func (w *c12World) txMetaFamilies() []*c12Fam {
 		m := metaoldest.TransactionStatusMeta{Status: &metaoldest.Result__Ok{}, Fee: 5000, PreBalances: []uint64{1_000_000, 5}, PostBalances: []uint64{995_000, 5}}
 		data, err := m.BincodeSerialize()
 		c12Must(err)
-		fields := []c12Field{c12Fixed(data, "status-variant", 0, 4), c12Fixed(data, "pre-balances-len", 12, 8), c12Fixed(data, "post-balances-len", 36, 8)}
+		fields := []c12Field{c12Fixed(data, "status-variant", 0, 4), c12Big(c12Fixed(data, "pre-balances-len", 12, 8)), c12Big(c12Fixed(data, "post-balances-len", 36, 8))}
 		fams = append(fams, &c12Fam{Name: fmt.Sprintf("tx-meta/bincode-oldest/%dB", len(data)), Format: "tx-meta-bincode-oldest", Seed: data, Fields: fields, Run: run(2)})
 	}
 	return fams
@@ -1583,18 +1618,32 @@ func c12Families(buildDir string, thorough bool) []*c12Fam {
 	c12SilenceKlog()
 	c12Must(os.MkdirAll(buildDir, 0o755))
 	defer os.RemoveAll(buildDir)
+	t0 := time.Now()
+	lap := func(what string) {
+		if c12Debug {
+			fmt.Fprintf(os.Stderr, "c12 debug: setup %-12s %s\n", what, time.Since(t0))
+			t0 = time.Now()
+		}
+	}
 	w := c12BuildWorld()
+	lap("world")
 	var fams []*c12Fam
 	fams = append(fams, w.ipldFamilies(thorough)...)
 	fams = append(fams, w.frameFamilies()...)
 	fams = append(fams, w.carFamilies()...)
+	lap("ipld+car")
 	fams = append(fams, w.indexFamilies(filepath.Join(buildDir, "idx"), thorough)...)
+	lap("indexes")
 	fams = append(fams, w.bucketteerFamilies(filepath.Join(buildDir, "buck"), thorough)...)
+	lap("bucketteer")
 	fams = append(fams, c12BlocktimeFamilies(thorough)...)
+	lap("blocktime")
 	fams = append(fams, c12ManifestFamilies(filepath.Join(buildDir, "man"))...)
 	fams = append(fams, c12LogFamilies(filepath.Join(buildDir, "log"))...)
 	fams = append(fams, w.metaFamilies()...)
 	fams = append(fams, w.txMetaFamilies()...)
+	lap("rest")
+	defer lap("prepare")
 	lim := c12K2Limit(thorough)
 	names := map[string]bool{}
 	for _, f := range fams {
